@@ -95,5 +95,33 @@ pub proof fn lemma_sorted_seq<K: Ord>(q: Seq<K>, s: Set<K>)
     lemma_sorted_unique::<K>(q, c);
 }
 
+
+// what `BTreeMap::iter()` yields: the (key, value) pairs in ascending key order = sorted_seq of the domain
+pub proof fn lemma_btree_iter_sorted<K: Ord, V>(m: Map<K, V>, rem: Seq<(&K, &V)>)
+    requires obeys_cmp::<K>(), lt_laws::<K>(),
+        rem.len() == m.dom().len(), m.dom().finite(),
+        forall|i: int| 0 <= i < rem.len() ==> m.contains_key(*(#[trigger] rem[i]).0) && m[*rem[i].0] == *rem[i].1,
+        increasing_seq(rem.map_values(|p: (&K, &V)| *p.0)),
+    ensures rem.map_values(|p: (&K, &V)| *p.0) == sorted_seq(m.dom()), rem.map_values(|p: (&K, &V)| *p.0).no_duplicates(),
+        forall|i: int| 0 <= i < rem.len() ==> *(#[trigger] rem[i]).1 == m[sorted_seq(m.dom())[i]],
+{
+    let ks = rem.map_values(|p: (&K, &V)| *p.0);
+    assert(ks.no_duplicates()) by {
+        broadcast use axiom_increasing_seq_meaning;
+        assert forall|i: int, j: int| 0 <= i < ks.len() && 0 <= j < ks.len() && i != j implies ks[i] != ks[j] by {
+            if i < j { assert(lt(ks[i], ks[j])); } else { assert(lt(ks[j], ks[i])); }
+        }
+    }
+    ks.unique_seq_to_set();
+    assert(ks.to_set().subset_of(m.dom())) by {
+        assert forall|x: K| ks.to_set().contains(x) implies m.dom().contains(x) by {
+            let w = choose|w: int| 0 <= w < ks.len() && ks[w] == x; assert(m.contains_key(*rem[w].0));
+        }
+    }
+    vstd::set_lib::lemma_subset_equality(ks.to_set(), m.dom());
+    lemma_sorted_seq::<K>(ks, m.dom());
+    assert forall|i: int| 0 <= i < rem.len() implies *(#[trigger] rem[i]).1 == m[sorted_seq(m.dom())[i]] by { assert(ks[i] == *rem[i].0); }
+}
+
 } // verus!
 }
